@@ -109,30 +109,29 @@ def make_pyvis_net(
         network_kwargs = {"cdn_resources": "local"}
     net = network.Network(**network_kwargs)
     verts = list(uni.vertices)
+
+    # fast lookup of a member vertex's index, keyed by identity (this is *much*
+    # faster than something like verts.index(other), and does not touch the
+    # vertices themselves)
+    index = {id(vert): i for i, vert in enumerate(verts)}
+
     for i, vert in enumerate(verts):
         if rvfunc:
             net.add_node(i, label=rvfunc(vert))
         else:
             net.add_node(i, label=hex(id(vert)))
 
-        # store a temporary attribute on the object that we will use for fast
-        # lookup of this vertex's index later on
-        # pylint: disable-next=protected-access
-        vert.__make_pyvis_net_i = i
-
     for i, vert in enumerate(verts):
         for edge in vert.links:
 
-            # only draw arrows when we're at the *from* node
-            if vert is edge.v2:
+            # only draw arrows when we're at the *from* node (a self-loop is
+            # both ends at once; it is drawn once, from its v1 side)
+            if (vert is edge.v2) and (vert is not edge.v1):
                 continue
 
             other = edge.other(vert)
-            try:
-                # this is *much* faster than something like verts.index(other)
-                # pylint: disable-next=protected-access
-                j = other.__make_pyvis_net_i
-            except AttributeError:
+            j = index.get(id(other))
+            if j is None:
                 # not a member
                 continue
 
@@ -151,18 +150,9 @@ def make_pyvis_net(
                     net.add_edge(i, j)
             except AssertionError:
                 # AssertionError is raised by pyvis module if trying to link to
-                # a non-existent vertex (node).  this should be exceedingly
-                # rare in the wild, but can be triggered if a vertex already
-                # has the ``__make_pyvis_net_i`` attribute that we didn't add
-                # in this function (i.e. it carried it in).
-                #
-                # the effect of this is that the node we're trying to link to
-                # doesn't exist, so skip it.
+                # a non-existent vertex (node).  the effect of this is that the
+                # node we're trying to link to doesn't exist, so skip it.
                 continue
-
-    # make sure we remove our temporary attribute
-    for vert in verts:
-        del vert.__make_pyvis_net_i
 
     return net
 
